@@ -79,12 +79,13 @@ def markerIndex (cmd : String) : Option Nat :=
   | some c => if c.isDigit then some (c.toNat - 48) else none
   | none => none
 
-/-- the loop of `pop_stack` (runs `n` times): look at the top (unwrap), pop it if it is a Move/Zoom entry -/
+/-- the loop of `pop_stack` (runs `n` times): look at the top, pop it if it is a Move/Zoom entry; an empty stack ends the
+loop (a retried command that does not move pushed nothing) -/
 def popLoop : Nat → NavState → Outcome NavState
   | 0, s => .ok s
   | n+1, s =>
     match top s with
-    | none => .panic "navigate.rs:pop_stack:top.unwrap"
+    | none => .ok s
     | some (_, c) =>
       if isMoveOrZoom c then
         match pop s with
